@@ -586,7 +586,7 @@ def value_cases(tier):
                                                                   ((2, 4), (2, 2), (2, 2)), ((3, 4), (2, 2), (2, 2)), ((4, 3), (2, 2), (2, 2)),
                                                                   ((2, 5), (2, 2), (1, 2)), ((3, 3), (3, 1), (1, 3))]})
     for name in ("batchnorm", "batchnorm-affine", "softmax", "logsoftmax", "softmax_crossentropy", "negative_log_likelihood",
-                 "multiclass_hinge", "margin_ranking_loss", "focal_loss", "softmax_focal_loss", "gru"):
+                 "multiclass_hinge", "margin_ranking_loss", "focal_loss", "softmax_focal_loss", "gru", "gru-s0"):
         cs.append({"kind": "formula", "name": "val/%s" % name, "which": name})
     return cs
 
@@ -781,7 +781,7 @@ def run_values(spec, tier, mg):
                             res["status"] = common.INCONCLUSIVE
         res["sample"] = {"case": spec["name"], "configuration (x, pool, stride)": list(spec["confs"][0])}
     else:
-        _run_formula(spec, res, mg, explore)
+        _run_formula(dict(spec, tier=tier), res, mg, explore)
     return res
 
 
@@ -954,14 +954,19 @@ def _run_formula(spec, res, mg, explore):
                 want = want + Sym(tm.ite(tm.lt(tm.const(0), m.t), m.t, tm.const(0)))
             want = want / 2
             _eq_arrays(res, spec, p, data, want, which)
-    elif which == "gru":
+    elif which in ("gru", "gru-s0"):
         def body():
-            T, N, C, D = 2, 1, 2, 2
+            # gru-s0: a symbolic, non-zero initial state (the recurrence must start from it)
+            T, N, C, D = (2, 1, 2, 2) if which == "gru" else ((2 if spec.get("tier") == "thorough" else 1), 2, 1, 2)
             X = symarr("X", (T, N, C))
             names = ["Uz", "Wz", "bz", "Ur", "Wr", "br", "Uh", "Wh", "bh"]
             shp = {"U": (C, D), "W": (D, D), "b": (D,)}
             P = {n: symarr(n, shp[n[0]]) for n in names}
-            out = gru(X, *[P[n] for n in names], constant=True)
+            if which == "gru":
+                out = gru(X, *[P[n] for n in names], constant=True)
+            else:
+                P["s0"] = symarr("s0", (N, D))
+                out = gru(X, *[P[n] for n in names], s0=np.array(P["s0"], dtype=object), constant=True)
             return out.data, X, P
 
         for p in explore(body):
@@ -973,11 +978,11 @@ def _run_formula(spec, res, mg, explore):
             T, N, C = X.shape
             D = P["bz"].shape[0]
             sig = lambda v: 1 / (1 + (-v).exp())
-            s = [[S0(0) for _ in range(D)] for _ in range(N)]
+            s = [[(P["s0"][n, d] if "s0" in P else S0(0)) for d in range(D)] for n in range(N)]
             want = np.empty((T + 1, N, D), dtype=object)
             for n in range(N):
                 for d in range(D):
-                    want[0, n, d] = S0(0)
+                    want[0, n, d] = s[n][d]
             for t in range(T):
                 for n in range(N):
                     z, r, h = [], [], []
